@@ -132,6 +132,7 @@ class InputDataStorage:
             exit(-1)
 
         for i in range(len(sample_files)):
+            check_experiment_name(experiment_names[i])
             self.samples.append(SampleData(sample_files[i], experiment_names[i],
                                            os.path.join(args.output, experiment_names[i]),
                                            readable_names_dict[experiment_names[i]],
@@ -219,10 +220,12 @@ class InputDataStorage:
                 logger.critical("The input data format can only be either fastq, fasta or bam.")
                 exit(-1)
         for sample in con[1:]:
-            if not 'name' in sample.keys():
+            if sample.get('name') is None or sample['name'] == "":
+                # no name (or an empty one, as an empty header line of a list file): named by position
                 current_sample_name = self.experiment_prefix + str(current_index)
             else:
-                current_sample_name = sample['name']
+                # the name is a folder name and a file prefix: a YAML scalar that is not a string (name: 7) is used as printed
+                current_sample_name = str(sample['name'])
             if current_sample_name in experiment_names:
                     new_sample_name = self.experiment_prefix + str(current_index)
                     if new_sample_name in experiment_names:
@@ -285,6 +288,14 @@ class InputDataStorage:
         
         # sample_name = common_name + str(index)
         # return sample_name
+
+
+def check_experiment_name(name):
+    # <output>/<name>/<name>.* : two different names must never denote one folder ("A" and "./A"),
+    # and the files of an experiment must lie in its own folder ("A/", "d/A")
+    if name in ("", ".", "..") or os.path.basename(name) != name:
+        logger.critical("Experiment name '%s' cannot be used as a folder name, change it and rerun IsoQuant" % name)
+        exit(-1)
 
 
 def check_input_type(fname, input_type):
